@@ -402,6 +402,50 @@ def _simplify_ifexps(ps):
     ps.order = new_order
 
 
+def _callee_mentions(func, call, name):
+    """the called function is defined in func's module and mentions `name`
+    (or cannot be identified as a plain module-level function / imported name)"""
+    from .normalize import _module_of
+    mod_ = _module_of(func)
+    f = call.func
+    if not isinstance(f, ast.Name):
+        # method calls: answer conservatively only for receivers that are calls/attrs
+        # of other objects - they cannot name a private module global of this module
+        return any(isinstance(y, ast.Name) and y.id == name for y in ast.walk(f))
+    if mod_ is None:
+        return True
+    for st in mod_.body:
+        if isinstance(st, FUNC) and st.name == f.id:
+            return any(isinstance(y, ast.Name) and y.id == name for y in ast.walk(st))
+    return False
+
+
+_SENT_CACHE = {}
+
+
+def _sentinels(func):
+    """names bound exactly once, at module level, to a fresh `object()`"""
+    from .normalize import _module_of
+    mod_ = _module_of(func)
+    if mod_ is None:
+        return frozenset()
+    key = id(mod_)
+    if key not in _SENT_CACHE:
+        count, sent = {}, set()
+        for st in ast.walk(mod_):
+            if isinstance(st, ast.Name) and isinstance(st.ctx, ast.Store):
+                count[st.id] = count.get(st.id, 0) + 1
+        for st in mod_.body:
+            if isinstance(st, ast.Assign) and len(st.targets) == 1 and \
+                    isinstance(st.targets[0], ast.Name) and isinstance(st.value, ast.Call) and \
+                    isinstance(st.value.func, ast.Name) and st.value.func.id == 'object' and \
+                    not st.value.args and not st.value.keywords and \
+                    count.get(st.targets[0].id) == 1:
+                sent.add(st.targets[0].id)
+        _SENT_CACHE[key] = frozenset(sent)
+    return _SENT_CACHE[key]
+
+
 _SPELL_HINT = ('filter(', 'map(', 'operator.', 'lambda', 'attrgetter', 'itemgetter',
                'methodcaller', '__getitem__', '__contains__', '*(')
 
@@ -623,6 +667,44 @@ def summarise(func, limit=6000, to_raise=True, lists=False):
                         if tval != (lab == 'T'):
                             ps.infeasible = True
                         skip_fact = True
+                    # identity against a module-level sentinel (`_NOTHING = object()`,
+                    # bound once): the sentinel is itself, and it is neither the result
+                    # of a call, nor a literal, nor another sentinel
+                    if not skip_fact and isinstance(core, ast.Compare) and len(core.ops) == 1 \
+                            and isinstance(core.ops[0], (ast.Is, ast.IsNot)):
+                        sent_ = _sentinels(func)
+                        l_, r_ = core.left, core.comparators[0]
+                        if isinstance(r_, ast.Name) and r_.id in sent_ and not (
+                                isinstance(l_, ast.Name) and l_.id in sent_):
+                            l_, r_ = r_, l_
+                        if isinstance(l_, ast.Name) and l_.id in sent_:
+                            same_ = None
+                            if isinstance(r_, ast.Name) and r_.id == l_.id:
+                                same_ = True
+                            elif isinstance(r_, ast.Name) and r_.id in sent_:
+                                same_ = False
+                            elif isinstance(r_, (ast.Constant, ast.Tuple, ast.List,
+                                                 ast.Dict, ast.ListComp, ast.BinOp)):
+                                same_ = False
+                            elif isinstance(r_, ast.Call) and l_.id.startswith('_') and \
+                                    not any(isinstance(y, ast.Name) and y.id == l_.id
+                                            for y in ast.walk(r_)) and \
+                                    not _callee_mentions(func, r_, l_.id):
+                                # a private sentinel can only come out of a call it
+                                # was handed to, or of a function of its own module
+                                # that names it
+                                same_ = False
+                            if same_ is not None:
+                                val_ = same_ if isinstance(core.ops[0], ast.Is) else not same_
+                                nots = 0
+                                x_ = t
+                                while isinstance(x_, ast.UnaryOp) and isinstance(x_.op, ast.Not):
+                                    x_ = x_.operand
+                                    nots += 1
+                                tval = val_ if nots % 2 == 0 else not val_
+                                if tval != (lab == 'T'):
+                                    ps.infeasible = True
+                                skip_fact = True
                     if skip_fact:
                         continue
                     b = env.binding(a)
